@@ -220,7 +220,7 @@ def check_text(task):
             res["detail"] = ref_err
             return res
         vd = vocab_diff(denote.vocabulary(dom), ref_vocabulary(rd))
-        objects = dict(G.OBJECTS)
+        objects = dict(task.get("objects") or G.OBJECTS)
         vars_ = rsem.Vars()
         sem = rsem.Sem(rd, objects, eps, vars_)
         problems = []
@@ -368,7 +368,9 @@ def tasks_for(tier, seed):
         extra = [["s4", "?a", "-", "t4"]]
         d = G.domain_tree([("act", P2, ["and", ["p", "?x"]], ["and", ["forall", ["?z", "-", "t1"], ["when", ["p", "?z"], ["not", ["p", "?z"]]]]])],
                           const=True, types=types, extra_predicates=extra)
-        tasks.append({"text": G.pretty(d), "fragment": "in", "label": "decl " + label, "layout": "canonical"})
+        # with an object of the deepest type: the quantifier over t1 ranges over it exactly when the closure is right
+        tasks.append({"text": G.pretty(d), "fragment": "in", "label": "decl " + label, "layout": "canonical",
+                      "objects": dict(G.OBJECTS, o4="t4") if "tp" not in types else None})
     # constants after predicates; predicates with grouped/untyped parameters; functions with '- number'
     d = G.domain_tree([("act", P2, ["and", ["p", "k"]], ["and", ["q", "?x", "k"]])], const=True)
     ci = next(i for i, s in enumerate(d) if isinstance(s, list) and s[0] == ":constants")
